@@ -367,16 +367,24 @@ def run(ctx):
         if b["ok"]:
             b = ctx.coq_build(["C06/GenAbiSizes.v", "C06/SizesTie.v", "C06/PropsC06.v"])
     # ---- 2. generated pairs; spec validation; real ABIType correspondence
-    pairs = make_pairs(ctx, 30 if quick else 150, 3 if quick else 4)
+    import time
+    t0 = time.time()
+    ctx.log(f"coq build done ({time.time() - ctx.t0:.1f}s since start)")
+    pairs = make_pairs(ctx, 26 if quick else 150, 3 if quick else 4)
     n_spec = part_spec_validation(ctx, pairs)
+    ctx.log(f"spec/size validation: {time.time() - t0:.1f}s")
+    t0 = time.time()
     # ---- 3. exits
     cfgs = C.configs(ctx.tier)
     if not quick:
         r = ctx.rng("cfgs")
         cfgs = C.quick_configs() + r.sample(cfgs, 30)
-    n_exit, wrapped = part_exits(ctx, pairs, cfgs, 4 if quick else 6)
+    n_exit, wrapped = part_exits(ctx, pairs, cfgs, 3 if quick else 6)
+    ctx.log(f"exits: {time.time() - t0:.1f}s")
+    t0 = time.time()
     n_eth = part_eth_abi(ctx, wrapped)
     n_reason = part_reasons(ctx, C.quick_configs() if quick else cfgs)
+    ctx.log(f"reasons: {time.time() - t0:.1f}s")
     zp_ok, zp = part_zero_pad_template(ctx)
     found = any(v["kind"] == "failing-input" for v in ctx.violations) or ctx.known_hits
     # ---- verdicts for broken ties / proofs (after Search = the exits + size oracle above)
